@@ -4,7 +4,7 @@ cd "$(dirname "$0")/.."
 for d in seeded/*/; do
   id=$(basename "$d")
   git -C /repo apply "$(readlink -f "$d/patch.diff")" || { echo "$id patch does not apply"; continue; }
-  out=$(timeout 1500 ./check "$id" quick 2>&1 | grep "^VIOLATION" | head -1)
+  out=$(VERIF_SCRATCH_EVIDENCE=/tmp/supvsim-scratch-evidence timeout 1500 ./check "$id" quick 2>&1 | grep "^VIOLATION" | head -1)
   git -C /repo checkout -- .
   echo "$id ${out:-MISSED}"
 done
